@@ -23,6 +23,7 @@ class Generator:
         self.w = dict(self.p["weights"])
         self.n_fresh = 0
         self.cur_session = 0
+        self.plan = []  # pending steps of a multi-step scenario (callables step_index -> step | None)
         if not mach.cfg.get("hold_refs", True):
             self.w["ref"] = 0
             self.p = dict(self.p, refarg_mix=dict(self.p.get("refarg_mix", {}), r=0))
@@ -53,6 +54,11 @@ class Generator:
             st["s"] = 0
             return st
         self.cur_session = self.rng.randrange(m.sessions)
+        while self.plan:
+            st = self.plan.pop(0)(i)
+            if st is not None:
+                st["s"] = self.cur_session
+                return st
         ops = [k for k, v in self.w.items() if v > 0]
         weights = [self.w[k] for k in ops]
         for _ in range(12):
@@ -332,9 +338,31 @@ class Generator:
             if not good:
                 return None
             return {"op": "ref", "t": pt.id, "how": "via", "via": self.rng.choice(good)}
-        # prefer columns that have no pooled reference yet
         names = pt.m.names()
+        # bias towards computed columns (window / aggregate results): references to them are what
+        # later hiding / filtering / sub-query steps have to keep intact
+        T = self.m.model.toks
+        computed = [n for n, t in pt.m.visible if T[t].lineage is None and T[t].kind != "const"]
+        if computed and self.rng.random() < 0.5:
+            names = computed
         return {"op": "ref", "t": pt.id, "how": how, "name": self.rng.choice(names)}
+
+    def g_hide_ref(self):
+        """hide (drop / select away) a column that some call site still holds a reference to"""
+        m = self.m
+        held = set(m.ref_toks.values())
+        pt = self.pick_table(lambda p: len(p.m.visible) >= 3 and any(t in held for t in p.m.vis_toks()))
+        if pt is None:
+            return None
+        cands = [t for t in pt.m.vis_toks() if t in held]
+        T = m.model.toks
+        computed = [t for t in cands if T[t].lineage is None]
+        tok = self.rng.choice(computed if computed and self.rng.random() < 0.6 else cands)
+        a = self.refarg(pt, tok, allow_str=True)
+        if a is None:
+            return None
+        m.note("referenced_column_hidden")
+        return {"op": "drop", "t": pt.id, "cols": [a]}
 
     def g_select(self):
         pt = self.pick_table(lambda p: len(p.m.visible) >= 2)
@@ -510,6 +538,74 @@ class Generator:
         if not preds:
             return None
         return {"op": "filter", "t": pt.id, "preds": preds}
+
+    def g_touch_hidden_computed(self):
+        """apply a row-level verb to a table that carries a HIDDEN computed (window / aggregate)
+        column some call site still references - the state in which a back end is tempted to forget
+        the column (sub-query catalogue, column pruning)"""
+        m = self.m
+        T = m.model.toks
+        held = set(m.ref_toks.values())
+
+        def has(p):
+            return any(t in held and T[t].lineage is None and T[t].kind != "const" for t in p.m.hidden())
+
+        pt = self.pick_table(has)
+        if pt is None:
+            return None
+        m.note("verb_on_table_with_hidden_referenced_computed_column")
+        kind = self.rng.choice(["filter", "filter", "arrange", "mutate", "slice"])
+        if kind == "filter":
+            preds = [p for p in (self.g_pred(pt),) if p]
+            return {"op": "filter", "t": pt.id, "preds": preds} if preds else None
+        if kind == "arrange":
+            by = self.total_order(pt, extra=1)
+            return {"op": "arrange", "t": pt.id, "by": by} if by else None
+        if kind == "slice" and pt.m.order_fixed and not pt.m.grouping:
+            return {"op": "slice_head", "t": pt.id, "n": self.rng.choice([1, 2, 3, 5]), "offset": self.rng.choice([0, 1])}
+        rec = self.g_exprrec(pt, self.p["mutate_kinds"])
+        return {"op": "mutate", "t": pt.id, "cols": [[self.fresh_name(), rec]]} if rec else None
+
+    def g_hidden_computed_scenario(self):
+        """multi-step scenario: compute a window / aggregate column, take a reference to it, hide it,
+        then apply a row-level verb to the result"""
+        if not self.m.cfg.get("hold_refs", True) or len(self.m.refs) >= self.p.get("max_refs", 24):
+            return None
+        st = self.g_mutate(window=True)
+        if st is None:
+            return None
+        name = st["cols"][-1][0]
+        state = {}
+
+        def take_ref(i):
+            tid = f"t{i - 1}"
+            if tid not in self.m.tables or self.m.tables[tid].m.tok_of_name(name) is None:
+                self.plan.clear()
+                return None
+            state["t"] = tid
+            state["r"] = f"r{i}"
+            return {"op": "ref", "t": tid, "how": self.rng.choice(["attr", "item"]), "name": name}
+
+        def hide(i):
+            if state.get("r") not in self.m.refs:
+                self.plan.clear()
+                return None
+            state["h"] = f"t{i}"
+            return {"op": "drop", "t": state["t"], "cols": [self.rng.choice([{"r": state["r"]}, {"c": name}, {"n": name}])]}
+
+        def touch(i):
+            pt = self.m.tables.get(state.get("h"))
+            if pt is None:
+                return None
+            self.m.note("hidden_computed_scenario")
+            preds = [p for p in (self.g_pred(pt),) if p]
+            if preds and self.rng.random() < 0.7:
+                return {"op": "filter", "t": pt.id, "preds": preds}
+            by = self.total_order(pt, extra=1)
+            return {"op": "arrange", "t": pt.id, "by": by} if by else None
+
+        self.plan = [take_ref, hide, touch]
+        return st
 
     def g_filter_empty(self):
         """always-false filter (empty sides)"""
